@@ -38,6 +38,7 @@ type Live struct {
 	Orig  []byte          // pristine copy of Buf
 	Twin  *roaring.Bitmap // the other side of a CowShared pair
 	Model *model.Set
+	keep  []*Live // operands whose buffers must outlive this bitmap
 }
 
 func DrawForm(t *rapid.T, label string) Form {
@@ -188,4 +189,77 @@ func Kinds(b *roaring.Bitmap) (string, []spec.Chunk) {
 		s[i] = "?bar"[c.Kind]
 	}
 	return string(s), ch
+}
+
+// History draws a bitmap whose representation depends on its history: a
+// generated spec materialized in a generated form, then 0-6 mutations and 0-2
+// algebra steps with other generated bitmaps. The model follows along.
+func History(t *rapid.T, label string, big bool) (*Live, string) {
+	bs := gen.Bitmap(t, label, gen.KindsValid, big)
+	f := DrawForm(t, label+".form")
+	l, err := Make(bs, f)
+	if err != nil {
+		t.Fatalf("cannot materialize %s as %s: %v", bs, f, err)
+	}
+	desc := fmt.Sprintf("%s as %s", bs, f)
+	n := rapid.IntRange(0, 6).Draw(t, label+".nops")
+	for i := 0; i < n; i++ {
+		x := uint64(gen.Value32(t, label+".x", l.Model))
+		w := uint64(rapid.SampledFrom([]int{1, 2, 64, 4096, 4097, 65536, 70000}).Draw(t, label+".w"))
+		e := x + w
+		if e > model.Max32+1 {
+			e = model.Max32 + 1
+		}
+		switch rapid.IntRange(0, 7).Draw(t, label+".op") {
+		case 0:
+			l.B.Add(uint32(x))
+			l.Model.Add(x)
+			desc += fmt.Sprintf("; Add(%d)", x)
+		case 1:
+			l.B.Remove(uint32(x))
+			l.Model.Remove(x)
+			desc += fmt.Sprintf("; Remove(%d)", x)
+		case 2:
+			l.B.AddRange(x, e)
+			l.Model.AddRange(x, e-1)
+			desc += fmt.Sprintf("; AddRange(%d,%d)", x, e)
+		case 3:
+			l.B.RemoveRange(x, e)
+			l.Model.RemoveRange(x, e-1)
+			desc += fmt.Sprintf("; RemoveRange(%d,%d)", x, e)
+		case 4:
+			l.B.Flip(x, e)
+			l.Model.FlipRange(x, e-1)
+			desc += fmt.Sprintf("; Flip(%d,%d)", x, e)
+		case 5:
+			l.B.RunOptimize()
+			desc += "; RunOptimize()"
+		default:
+			os, rel := gen.Related(t, label+".other", bs, gen.KindsValid)
+			ol, err := Make(os, DrawForm(t, label+".oform"))
+			if err != nil {
+				t.Fatalf("cannot materialize: %v", err)
+			}
+			switch rapid.IntRange(0, 3).Draw(t, label+".alg") {
+			case 0:
+				l.B.And(ol.B)
+				l.Model = model.And(l.Model, ol.Model)
+				desc += "; And(" + rel + ")"
+			case 1:
+				l.B.Or(ol.B)
+				l.Model = model.Or(l.Model, ol.Model)
+				desc += "; Or(" + rel + ")"
+			case 2:
+				l.B = roaring.Xor(l.B, ol.B) // static: the in-place form is known to touch its argument
+				l.Model = model.Xor(l.Model, ol.Model)
+				desc += "; Xor(" + rel + ")"
+			default:
+				l.B.AndNot(ol.B)
+				l.Model = model.AndNot(l.Model, ol.Model)
+				desc += "; AndNot(" + rel + ")"
+			}
+			l.keep = append(l.keep, ol)
+		}
+	}
+	return l, desc
 }
